@@ -1,13 +1,18 @@
 /-
-C05, file level, extension by static values (vocabulary of `parse_encode_static_values`).
+C05, file level, extension by static values and annotations (vocabulary of
+`parse_encode_static_values` / `parse_encode_annotations`).
 
-  TablesX     the base tables plus the encoded_array_item section: every array with the values it
-              denotes (format document, AgVerif.Spec.EncodedValue) and its bytes
-  EncodesX    `file` holds the base tables, and the section 0x2005 at the offset its map entry gives
-              as the concatenation of the arrays' encodings; no annotation sections (this step)
-  WFX         decidable well-formedness on top of WF: an array section comes with the four id
-              sections its values may refer to; class defs have no annotations directory (this
-              step); static_values_off ≠ 0 designates a stored array when the class has class data
+  TablesX     the base tables plus five sections: encoded_array_item (every array with the values it
+              denotes — format document, AgVerif.Spec.EncodedValue — and its bytes), annotation_item
+              (visibility, type, elements, bytes), annotation_set_item and annotation_set_ref_list
+              (offset lists), annotations_directory_item (offset records)
+  EncodesX    `file` holds the base tables and each of the five sections at the offset its map entry
+              gives, as the concatenation of the encodings of its rows
+  WFX         decidable well-formedness on top of WF: value ranges; a section with encoded values
+              comes with the four id sections its values may refer to; a class def that names an
+              annotations directory / static values comes with that section; static_values_off
+              designates a stored array when the class has class data; the class annotation set of a
+              found directory designates stored annotation items
   poolsOf     the id sections as lookups (what `cm.get_raw_string / get_type / get_field / get_method`
               return on the loaded file)
   tablesCMX   the extended ClassManager state the tables denote
@@ -20,9 +25,19 @@ open AgVerif.DexFile AgVerif.LoadOrder AgVerif.DexX
 open AgVerif.EncodedValue (Value embed toCM)
 open AgVerif.Spec.EncodedValue (SValue Pools)
 
+/-- annotation_item as the format document has it: visibility, type_idx, (name_idx, value) elements -/
+structure AnnRow where
+  visibility : Nat
+  typeIdx : Nat
+  elems : List (Nat × SValue)
+
 structure TablesX where
   base : Tables
   encArrays : List (List SValue × Bytes)      -- values and an encoding of them (EncArray)
+  annItems : List (AnnRow × Bytes) := []       -- content and an encoding of it (EncAnnItem)
+  annSets : List (List Nat) := []              -- annotation_set_item: annotation_off entries
+  annRefs : List (List Nat) := []              -- annotation_set_ref_list: annotations_off entries
+  annDirs : List AnnDir := []                  -- annotations_directory_item
 
 /-- what the ClassManager lookups of EncodedValue return on the loaded file -/
 def poolsOf (T : Tables) (L : Layout) : Pools where
@@ -40,10 +55,24 @@ def poolsOf (T : Tables) (L : Layout) : Pools where
 def TablesX.eaItems (TX : TablesX) (L : Layout) : List (List Value × Bytes) :=
   TX.encArrays.map fun p => (p.1.map (embed (poolsOf TX.base L)), p.2)
 
-/-- the arrays keyed by the offsets the layout gives them -/
-def eaTab (TX : TablesX) (L : Layout) : List (Nat × List Value) := tab L 0x2005 (TX.eaItems L)
+def annItemOf (P : Pools) (r : AnnRow) : AnnItem :=
+  ⟨r.visibility, r.typeIdx, r.elems.map fun e => (e.1, embed P e.2)⟩
 
-/-- no annotation sections (this step of the extension) -/
+def TablesX.aiItems (TX : TablesX) (L : Layout) : List (AnnItem × Bytes) :=
+  TX.annItems.map fun p => (annItemOf (poolsOf TX.base L) p.1, p.2)
+
+def TablesX.setItems (TX : TablesX) : List (List Nat × Bytes) := TX.annSets.map fun l => (l, encOffList l)
+def TablesX.refItems (TX : TablesX) : List (List Nat × Bytes) := TX.annRefs.map fun l => (l, encOffList l)
+def TablesX.dirItems (TX : TablesX) : List (AnnDir × Bytes) := TX.annDirs.map fun d => (d, encAnnDir d)
+
+/-- the rows keyed by the offsets the layout gives them -/
+def eaTab (TX : TablesX) (L : Layout) : List (Nat × List Value) := tab L 0x2005 (TX.eaItems L)
+def aiTab (TX : TablesX) (L : Layout) : List (Nat × AnnItem) := tab L 0x2004 (TX.aiItems L)
+def setTab (TX : TablesX) (L : Layout) : List (Nat × List Nat) := tab L 0x1003 TX.setItems
+def refTab (TX : TablesX) (L : Layout) : List (Nat × List Nat) := tab L 0x1002 TX.refItems
+def dirTab (TX : TablesX) (L : Layout) : List (Nat × AnnDir) := tab L 0x2006 TX.dirItems
+
+/-- no annotation sections (the hypothesis of the first step, `parse_encode_static_values`) -/
 def NoAnn (L : Layout) : Prop :=
   L.sec 0x2004 = none ∧ L.sec 0x1003 = none ∧ L.sec 0x1002 = none ∧ L.sec 0x2006 = none
 
@@ -52,15 +81,24 @@ instance (L : Layout) : Decidable (NoAnn L) := by unfold NoAnn; exact inferInsta
 structure EncodesX (file : Bytes) (L : Layout) (TX : TablesX) : Prop where
   base : Encodes file L TX.base
   arrays : ∀ p ∈ TX.encArrays, EncArray p.2 p.1
+  items : ∀ p ∈ TX.annItems, EncAnnItem p.2 p.1.visibility p.1.typeIdx p.1.elems
   encArrays : Section file L 0x2005 TX.encArrays.length (bytesOf TX.encArrays) false
-  noAnn : NoAnn L
+  annItems : Section file L 0x2004 TX.annItems.length (bytesOf TX.annItems) false
+  annSets : Section file L 0x1003 TX.annSets.length (bytesOf TX.setItems) true
+  annRefs : Section file L 0x1002 TX.annRefs.length (bytesOf TX.refItems) true
+  annDirs : Section file L 0x2006 TX.annDirs.length (bytesOf TX.dirItems) true
 
 /-- the static values of a class def: the array stored at static_values_off (None for 0 and when
     no array starts there) -/
 def staticsAt (TX : TablesX) (L : Layout) (off : Nat) : Option (List Value) :=
   if off = 0 then none else lookupOff off (eaTab TX L)
 
-def classXOf (TX : TablesX) (L : Layout) (c : ClassDef) : ClassX := ⟨none, staticsAt TX L c.staticOff⟩
+/-- the annotations directory of a class def -/
+def annDirAt (TX : TablesX) (L : Layout) (off : Nat) : Option AnnDir :=
+  if off = 0 then none else lookupOff off (dirTab TX L)
+
+def classXOf (TX : TablesX) (L : Layout) (c : ClassDef) : ClassX :=
+  ⟨annDirAt TX L c.annOff, staticsAt TX L c.staticOff⟩
 
 /-- the set_static_fields call of a class def, if it makes one -/
 def initOf (TX : TablesX) (L : Layout) (c : ClassDef) : Option (Nat × List Value) :=
@@ -68,28 +106,74 @@ def initOf (TX : TablesX) (L : Layout) (c : ClassDef) : Option (Nat × List Valu
   | some _, some vs => some (c.dataOff, vs)
   | _, _ => none
 
+/-- the annotation_off entries of the class annotation set of a class def ([]: no directory, or no
+    set stored at class_annotations_off) -/
+def classAnnOffs (TX : TablesX) (L : Layout) (c : ClassDef) : List Nat :=
+  match annDirAt TX L c.annOff with
+  | none => []
+  | some d => (lookupOff d.classOff (setTab TX L)).getD []
+
+/-- ClassDefItem.get_annotations(): the type descriptors of the class annotations -/
+def annotationsAt (TX : TablesX) (L : Layout) (c : ClassDef) : List Bytes :=
+  (classAnnOffs TX L c).map fun off =>
+    match lookupOff off (aiTab TX L) with
+    | some it => typeAt TX.base L it.typeIdx
+    | none => []           -- WFX: isSome
+
+def OffListOk (l : List Nat) : Prop := l.length < 2 ^ 32 ∧ ∀ x ∈ l, x < 2 ^ 32
+def PairsOk (l : List (Nat × Nat)) : Prop := l.length < 2 ^ 32 ∧ ∀ p ∈ l, p.1 < 2 ^ 32 ∧ p.2 < 2 ^ 32
+def AnnDirOk (d : AnnDir) : Prop := d.classOff < 2 ^ 32 ∧ PairsOk d.fields ∧ PairsOk d.methods ∧ PairsOk d.params
+
+instance (l : List Nat) : Decidable (OffListOk l) := by unfold OffListOk; exact inferInstance
+instance (l : List (Nat × Nat)) : Decidable (PairsOk l) := by unfold PairsOk; exact inferInstance
+instance (d : AnnDir) : Decidable (AnnDirOk d) := by unfold AnnDirOk; exact inferInstance
+
 structure WFX (TX : TablesX) (L : Layout) : Prop where
   base : WF TX.base L
+  /- value ranges of the offset records -/
+  setsOk : ∀ l ∈ TX.annSets, OffListOk l
+  refsOk : ∀ l ∈ TX.annRefs, OffListOk l
+  dirsOk : ∀ d ∈ TX.annDirs, AnnDirOk d
+  /- sections with encoded values come with the id sections -/
   arraySecs : TX.encArrays ≠ [] →
     (L.sec 0x0001).isSome ∧ (L.sec 0x0002).isSome ∧ (L.sec 0x0004).isSome ∧ (L.sec 0x0005).isSome
-  noDirs : ∀ c ∈ TX.base.classDefs, c.annOff = 0
+  itemSecs : TX.annItems ≠ [] →
+    (L.sec 0x0001).isSome ∧ (L.sec 0x0002).isSome ∧ (L.sec 0x0004).isSome ∧ (L.sec 0x0005).isSome
+  /- a class def that names a directory / static values comes with that section -/
+  dirs : ∀ c ∈ TX.base.classDefs, c.annOff ≠ 0 → (L.sec 0x2006).isSome
   statics : ∀ c ∈ TX.base.classDefs, c.staticOff ≠ 0 →
     (L.sec 0x2005).isSome ∧ ((classDataAt TX.base L c.dataOff).isSome → (staticsAt TX L c.staticOff).isSome)
+  /- the class annotation set of a found directory: the set section exists, and the entries of a
+     found set designate stored annotation items -/
+  classSets : ∀ c ∈ TX.base.classDefs, (annDirAt TX L c.annOff).isSome → (L.sec 0x1003).isSome
+  classItems : ∀ c ∈ TX.base.classDefs, ∀ off ∈ classAnnOffs TX L c,
+    (L.sec 0x2004).isSome ∧ (lookupOff off (aiTab TX L)).isSome
 
 instance (TX : TablesX) (L : Layout) : Decidable (WFX TX L) :=
   decidable_of_iff
-    (WF TX.base L ∧
+    (WF TX.base L ∧ (∀ l ∈ TX.annSets, OffListOk l) ∧ (∀ l ∈ TX.annRefs, OffListOk l) ∧ (∀ d ∈ TX.annDirs, AnnDirOk d) ∧
      (TX.encArrays ≠ [] →
         (L.sec 0x0001).isSome ∧ (L.sec 0x0002).isSome ∧ (L.sec 0x0004).isSome ∧ (L.sec 0x0005).isSome) ∧
-     (∀ c ∈ TX.base.classDefs, c.annOff = 0) ∧
+     (TX.annItems ≠ [] →
+        (L.sec 0x0001).isSome ∧ (L.sec 0x0002).isSome ∧ (L.sec 0x0004).isSome ∧ (L.sec 0x0005).isSome) ∧
+     (∀ c ∈ TX.base.classDefs, c.annOff ≠ 0 → (L.sec 0x2006).isSome) ∧
      (∀ c ∈ TX.base.classDefs, c.staticOff ≠ 0 →
-        (L.sec 0x2005).isSome ∧ ((classDataAt TX.base L c.dataOff).isSome → (staticsAt TX L c.staticOff).isSome)))
-    ⟨fun ⟨h1, h2, h3, h4⟩ => ⟨h1, h2, h3, h4⟩, fun h => ⟨h.base, h.arraySecs, h.noDirs, h.statics⟩⟩
+        (L.sec 0x2005).isSome ∧ ((classDataAt TX.base L c.dataOff).isSome → (staticsAt TX L c.staticOff).isSome)) ∧
+     (∀ c ∈ TX.base.classDefs, (annDirAt TX L c.annOff).isSome → (L.sec 0x1003).isSome) ∧
+     (∀ c ∈ TX.base.classDefs, ∀ off ∈ classAnnOffs TX L c,
+        (L.sec 0x2004).isSome ∧ (lookupOff off (aiTab TX L)).isSome))
+    ⟨fun ⟨h1, h2, h3, h4, h5, h6, h7, h8, h9, h10⟩ => ⟨h1, h2, h3, h4, h5, h6, h7, h8, h9, h10⟩,
+     fun h => ⟨h.base, h.setsOk, h.refsOk, h.dirsOk, h.arraySecs, h.itemSecs, h.dirs, h.statics, h.classSets,
+       h.classItems⟩⟩
 
 /-- the extended ClassManager state the tables denote -/
 def tablesCMX (TX : TablesX) (L : Layout) : CMx :=
   { base := tablesCM TX.base L
     encArrays := (L.sec 0x2005).map fun _ => eaTab TX L
+    annItems := (L.sec 0x2004).map fun _ => aiTab TX L
+    annSets := (L.sec 0x1003).map fun _ => setTab TX L
+    annRefs := (L.sec 0x1002).map fun _ => refTab TX L
+    annDirs := (L.sec 0x2006).map fun _ => dirTab TX L
     classX := (L.sec 0x0006).elim [] fun _ => TX.base.classDefs.map (classXOf TX L)
     inits := (L.sec 0x0006).elim [] fun _ => TX.base.classDefs.filterMap (initOf TX L) }
 
@@ -101,8 +185,8 @@ def classVX (TX : TablesX) (L : Layout) (c : ClassDef) : ClassVX :=
       | none => []
       | some d => initsOf (TX.base.classDefs.filterMap (initOf TX L)) c.dataOff d.sf.length
     statics := staticsAt TX L c.staticOff
-    annDir := none
-    annotations := [] }
+    annDir := annDirAt TX L c.annOff
+    annotations := annotationsAt TX L c }
 
 def declaredX (TX : TablesX) (L : Layout) : DexVX :=
   ⟨declared TX.base L, TX.base.classDefs.map (classVX TX L)⟩
